@@ -185,10 +185,12 @@ class Run:
             ph.force_constants = self.give("force_constants", env[{"fcA": "A", "fcB": "B", "fcAc": "Ac"}[op]])
         elif op in ("dsD1", "dsD2"):
             ph.dataset = self.give_dataset("dataset", env[op[2:]])
+            _ = ph.supercells_with_displacements  # the normal workflow reads the displaced cells (builds a cache)
         elif op in ("prodF", "prodC"):
             phx.quiet(ph.produce_force_constants, calculate_full_force_constants=(op == "prodF"), show_drift=False)
         elif op == "gen":
             phx.quiet(ph.generate_displacements, distance=0.02)
+            _ = ph.supercells_with_displacements
         elif op == "sym1":
             phx.quiet(ph.symmetrize_force_constants, level=1, show_drift=False)
         elif op == "symsg":
